@@ -1,23 +1,46 @@
-(* C06 Connector (routes never share a cell), agent-level part PROVED for all sizes, states and in-spec joint actions:
-   after a step every agent is unchanged, or it moved one cell onto a cell that is on the grid and held EMPTY or its OWN
-   target in the grid the step started from, and it was not connected (so it never steps onto another agent's path, head
-   or target).  Every cell holds a single code kind + 3 * id, so a cell belongs to at most one agent by construction.
-   Grid-level statement (kept as a comment; _partial): Physical c s -> Physical c (next c s acts), and every cell changes
-   only EMPTY/own TARGET -> POSITION or POSITION -> PATH of the same agent.  It needs the max-join analysis and is
-   correspondence-checked (Impl = Rules = implementation on every transition, 2-/3-/4-way contests included) and checked by
-   the verified booleans Physical_b / grid_step_b on every implementation state. *)
-Require Import JV.Base.Prelude JV.Base.JaxIndex JV.Base.Codec JV.Base.TimeStep JV.Model.Connector JV.Proofs.Connector.
-Theorem C06_Connector_agent_moves_only_into_empty_or_own_target_partial c s acts k :
+(* C06 Connector (routes never share a cell), PROVED for all sizes, states and in-spec joint actions.
+   Grid level (from the max-join theorem, Proofs/Connector_Join.v): a Physical state -- every cell is EMPTY or carries a
+   code kind + 3 * id of exactly one agent id < num_agents, a POSITION code sits at that agent's stored position, a
+   TARGET code at its stored target -- steps to a Physical state, and every cell changes only EMPTY / own TARGET ->
+   POSITION of the mover or POSITION -> PATH of the same agent (grid_step_b, the checker the harness also runs on every
+   implementation transition).  Declaratively: a cell that changed was EMPTY or the mover's OWN target and now holds the
+   mover's head, or was the mover's head and now holds its path; nobody ever writes a cell owned by another agent, and
+   this holds however many agents contend for the same cell.
+   Agent level: every agent is unchanged, or moved one cell onto a cell that is on the grid and held EMPTY or its OWN
+   target in the grid the step started from, and it was not connected. *)
+Require Import JV.Base.Prelude JV.Base.JaxIndex JV.Base.Codec JV.Base.TimeStep JV.Model.Connector JV.Proofs.Connector
+  JV.Proofs.Connector_Step.
+Theorem C06_Connector_routes_exclusive c s acts :
+  Physical c s -> wf c s acts -> in_spec acts ->
+  Physical c (next c s acts) /\ grid_step_b (grid s) (grid (next c s acts)) = true.
+Proof. exact (fun HP HW HI => conj (Physical_next c s acts HP HW HI) (grid_step_next c s acts HP HW HI)). Qed.
+Theorem C06_Connector_only_own_cells_written c s acts r k :
+  Physical c s -> wf c s acts -> in_spec acts ->
+  0 <= r < gsz c -> 0 <= k < gsz c -> gat 0 (grid (next c s acts)) r k <> gat 0 (grid s) r k ->
+  exists j, 0 <= j < nag c /\
+    let o := znth dflt (agents s) j in let n := znth dflt (agents (next c s acts)) j in
+    ((apos n = (r, k) /\ apos o <> (r, k) /\ (gat 0 (grid s) r k = EMPTY \/ gat 0 (grid s) r k = tgtv j)
+      /\ gat 0 (grid (next c s acts)) r k = posv j)
+     \/ (apos o = (r, k) /\ apos n <> (r, k) /\ gat 0 (grid s) r k = posv j /\ gat 0 (grid (next c s acts)) r k = pathv j)).
+Proof. exact (fun HP HW HI => changed_cell c s acts HP HW HI r k). Qed.
+Theorem C06_Connector_agent_moves_only_into_empty_or_own_target c s acts k :
   wf c s acts -> 0 <= k < nag c -> dims (gsz c) (grid s) -> 0 <= znth 0 acts k <= 4 ->
   let o := znth dflt (agents s) k in let n := znth dflt (agents (next c s acts)) k in
   n = o \/ (aid n = aid o /\ astart n = astart o /\ atarget n = atarget o /\ 1 <= znth 0 acts k
             /\ apos n = padd (apos o) (dir (znth 0 acts k)) /\ in_grid (gsz c) (apos n) = true
             /\ (cell (grid s) (apos n) = EMPTY \/ cell (grid s) (apos n) = tgtv (aid o)) /\ connected o = false).
 Proof. exact (agent_step_cases c s acts k). Qed.
-Print Assumptions C06_Connector_agent_moves_only_into_empty_or_own_target_partial.
+Print Assumptions C06_Connector_routes_exclusive.
+Print Assumptions C06_Connector_only_own_cells_written.
+Print Assumptions C06_Connector_agent_moves_only_into_empty_or_own_target.
 Example C06_Connector_nonvacuous :
   let c := mkC 3 3 9 100 (-3) in
-  Physical_b c ex_s3 = true /\ Physical_b c (next c ex_s3 [3; 2; 4]) = true
+  (Physical c ex_s3 /\ wf c ex_s3 [3; 2; 4] /\ in_spec [3; 2; 4])
+  /\ Physical_b c ex_s3 = true /\ Physical_b c (next c ex_s3 [3; 2; 4]) = true
   /\ grid_step_b (grid ex_s3) (grid (next c ex_s3 [3; 2; 4])) = true
+  /\ grid (next c ex_s3 [3; 2; 4]) <> grid ex_s3
   /\ grid_step_b (grid ex_s3) [[0; 2; 0]; [5; 0; 8]; [3; 9; 9]] = false.
-Proof. vm_compute. repeat split; reflexivity. Qed.
+Proof.
+  cbv zeta. split; [|vm_compute; repeat split; try reflexivity; discriminate].
+  split; [apply Physical_b_spec; vm_compute; reflexivity|]. split; [vm_compute; repeat split; discriminate|repeat constructor; lia].
+Qed.
